@@ -4,8 +4,12 @@ C06  Region and limit queries return exactly the overlapping/contained features.
 Feature sets on bin-boundary coordinates are imported by the real create_db (one database serves many queries);
 every query is answered by the real FeatureDB.region / all_features / features_of_type / children / parents and by
 a brute-force scan of the model feature list (gvmon/models/C06.py).  The statement trace of gffutils' own
-connection tells whether the bin pre-filter was part of the executed SQL.
+connection tells whether the bin pre-filter was part of the executed SQL.  Further classes: databases whose seqids
+differ only in letter case (twin features at the same coordinates), databases with small features in the first 128 kb
+and features around bin ends of every level queried with 100-500 Mb spans and with ends on the last base of a bin, and
+several generators of one FeatureDB kept alive at once (nested / zip / random schedules).
 """
+import random
 import re
 from collections import Counter
 
@@ -21,15 +25,38 @@ RULE = ("feature sets of 300 (quick: 250) features on 2-4 seqids x 3 strands x 5
         "end) and limit= (tuple, string) of all_features/features_of_type/children/parents x completely_within x "
         "strand x featuretype (str/list/tuple/set); 60% of the query ends are placed at -1/0/+1 of an end of a stored "
         "feature, 10% around 2^29; 1 <= start <= end always.  non-trivial = expected result not empty and a query end "
-        "within +-2 of a bin boundary or >= 2^29-2; distinct = distinct (feature set, query) pairs")
+        "within +-2 of a bin boundary or >= 2^29-2; distinct = distinct (feature set, query) pairs.  Every 4th database "
+        "(flavour 'case') has 2 or 4 seqids that differ only in letter case (chrA/chra, pA/pa, ...) and ~40% twin features "
+        "with the same coordinates and Parent values on the other spelling; every 4th (flavour 'binends') holds small "
+        "features inside [1, 2^17] and features ending on / one off / starting after / filling the bin that ends at "
+        "m*2^(17+3k) for 6-8 values of m per level k, and is queried with 'wide' queries (start in 1..2^17, span 100-500 "
+        "Mb, end < 2^29, 85% completely_within) and 'bin-end' queries (end = m*2^(17+3k), k = 0..3, start = feature start "
+        "+-1 / first base of that bin / 1 / random).  'interleave' cases: 2-4 generators (any of the apis above) of the one "
+        "FeatureDB consumed round-robin (zip) or on a random schedule, and nested loops (outer: a query with 2-40 expected "
+        "features; inner, per yielded feature f: region(f) / all_features, features_of_type, children, parents with "
+        "limit=(f.seqid, f.start, f.end), children(f, limit=...)); every generator is compared with the same call consumed "
+        "alone and with the scan")
 REQUIRED = ["queries executed", "result rows compared", "sql: bin clause present", "sql: bin clause absent",
             "sql: region bin clause with 9..899 bins", "sql: limit bin clause with 9..899 bins", "sql: region within, both bounds in range, no bin clause (>= 900 bins)",
             "sql: limit, no bin clause (>= 900 bins)", "queries with an end >= 2**29", "one-sided queries",
             "queries touching a feature end exactly", "contract evaluations: helpers.make_query",
-            "contract evaluations: bins.bins"]
+            "contract evaluations: bins.bins",
+            "case-variant seqids: queries that the other spelling's features would have matched (none returned)",
+            "case-variant seqids: such queries through region", "case-variant seqids: such queries through limit=",
+            "wide queries (start <= 2^17, span 100-500 Mb): region within", "wide queries (start <= 2^17, span 100-500 Mb): limit within",
+            "wide within queries returning features that lie inside the first 128 kb",
+            "wide within queries with a bin clause in the SQL", "wide within queries without a bin clause in the SQL",
+            "interleaved: generators consumed while another generator of the same FeatureDB was alive",
+            "interleaved: nested loops with >= 2 outer items and a non-empty inner result",
+            "interleaved: nested loops with region(feature) inside a loop over region(...)",
+            "interleaved: schedules over >= 2 non-empty generators (one with >= 2 items)"] + \
+           ["bin-end queries (end = m*2^%d): %s, a feature ending on that base returned" % (17 + 3 * k, w)
+            for k in range(4) for w in ("region within", "region overlap", "limit within", "limit overlap")] + \
+           ["interleaved: generators of %s" % a for a in ("region", "all_features", "features_of_type", "children", "parents")]
 REQUIRED_CLASSES = ["region/%s/%s" % (f, w) for f, _ in G.REGION_FORMS for w in ("overlap", "within")] + \
                    ["%s/%s/%s" % (a, f, w) for a in ("all_features", "features_of_type", "children", "parents")
-                    for f, _ in G.LIMIT_FORMS for w in ("overlap", "within")]
+                    for f, _ in G.LIMIT_FORMS for w in ("overlap", "within")] + \
+                   ["interleave/nested", "interleave/schedule"]
 ASSUMPTIONS = [
     "one bound only: a result R is accepted when {strictly beyond the bound} <= R <= {at or beyond the bound}; for "
     "completely_within the deciding coordinate is the feature's start (only start given) / end (only end given), "
@@ -39,6 +66,9 @@ ASSUMPTIONS = [
     "string forms contain no ':'",
     "queries with no bound at all and empty featuretype collections are outside the statement and not generated",
     "children/parents: two-level hierarchies only (level-1 relations), so the relation model is the Parent attribute",
+    "seqids are compared as exact strings (letter case matters), as everywhere else in gffutils and in the GFF3 format",
+    "interleaved generators: the database is not modified while they are alive; a generator is compared as a multiset with "
+    "the same call consumed alone (no order is promised) and with the scan",
 ]
 QUICK_SHARDS = 4
 THOROUGH_SHARDS = 16
@@ -58,14 +88,15 @@ def setup(ctx):
 def get_db(ctx, setp):
     import gffutils
 
-    key = (setp["seed"], setp["n"], bool(setp.get("moved")))
+    key = (setp["seed"], setp["n"], bool(setp.get("moved")), setp.get("flavour"))
     if key not in _DBS:
         for k in list(_DBS):
             try:
                 _DBS.pop(k)[0].conn.close()
             except Exception:
                 pass
-        SET = G.make_set(setp["seed"], setp["n"])
+        SET = G.make_set(setp["seed"], setp["n"], flavour=setp.get("flavour"))
+        SET["by_id"] = {f["id"]: f for f in SET["features"]}
         if setp.get("moved"):
             # the same feature set, but every line is written at a placeholder position and moved to its real
             # coordinates by a transform: the stored bin has to be computed from the coordinates actually stored
@@ -97,6 +128,8 @@ def get_db(ctx, setp):
             from gvmon.run import Inconclusive
             raise Inconclusive("the stored relations differ from the model (see C02)")
         ctx.mon("databases built")
+        if setp.get("flavour"):
+            ctx.mon("databases built: flavour '%s'" % setp["flavour"])
         ctx.mon("features imported", len(rows))
         _DBS[key] = (db, SET, {k: v[5] for k, v in stored.items()})
         sqltrace.reset()
@@ -114,7 +147,12 @@ def ft_arg(q):
 
 
 def call(db, q):
-    """The real call for query q; returns the list of returned ids."""
+    """The real call for query q consumed alone; returns the list of returned ids."""
+    return [f.id for f in open_query(db, q)]
+
+
+def open_query(db, q, feature=None):
+    """The real call for query q; returns the generator.  `feature`: the Feature object to pass for the Feature form."""
     import gffutils
 
     api, form = q["api"], q["form"]
@@ -126,7 +164,9 @@ def call(db, q):
         elif form == "string":
             it = db.region("%s:%d-%d" % (seqid, start, end), **kw)
         elif form == "feature":
-            it = db.region(gffutils.Feature(seqid=seqid, start=start, end=end, strand=q["fstrand"]), **kw)
+            if feature is None:
+                feature = gffutils.Feature(seqid=seqid, start=start, end=end, strand=q["fstrand"])
+            it = db.region(feature, **kw)
         else:
             pos = {}
             if seqid is not None:
@@ -149,7 +189,7 @@ def call(db, q):
             it = db.parents(q["id"], level=q["level"], featuretype=ft_arg(q), **kw)
         else:
             raise ValueError(api)
-    return [f.id for f in it]
+    return it
 
 
 BIN_RE = re.compile(r"\bbin\s*=|\bfeatures\.bin\s+IN\s*\(([^)]*)\)", re.I)
@@ -178,6 +218,8 @@ def report(ctx, case, reason_class, detail):
 
 
 def execute(ctx, case):
+    if case["kind"] == "interleave":
+        return execute_interleave(ctx, case)
     q = case["query"]
     db, SET, stored_bin = get_db(ctx, case["set"])
     feats = SET["features"]
@@ -208,12 +250,142 @@ def execute(ctx, case):
                           by_id[i]["featuretype"], "bin %s" % stored_bin.get(i)] for i in ids[:6] if i in by_id]
             detail["n " + k] = len(ids)
         report(ctx, case, cls, detail)
+    else:
+        observe_class(ctx, q, SET, uni, lower, present)
     for v in contracts.drain():
         report(ctx, case, "contract " + v.get("contract", "?"), v)
     s, e = q["start"], q["end"]
     touch = any((s is not None and s in (f["start"], f["end"])) or (e is not None and e in (f["start"], f["end"]))
                 for f in uni if q["seqid"] is None or f["seqid"] == q["seqid"])
     return {"expected": len(lower), "touch": touch}
+
+
+def observe_class(ctx, q, SET, uni, lower, present):
+    """Monitors of the special workload classes (called for queries that agreed with the scan)."""
+    kind = "region" if q["api"] == "region" else "limit"
+    wo = "within" if q["within"] else "overlap"
+    other = SET.get("partner", {}).get(q["seqid"])
+    if other is not None:
+        twin, _ = M.expected(uni, other, q["start"], q["end"], q["within"], q["strand"], q["ft"])
+        if twin:
+            ctx.mon("case-variant seqids: queries that the other spelling's features would have matched (none returned)")
+            ctx.mon("case-variant seqids: such queries through %s" % ("region" if kind == "region" else "limit="))
+            ctx.mon("case-variant seqids: such queries, form %s/%s" % (kind, q["form"]))
+    tag = q.get("tag")
+    if tag == "wide":
+        ctx.mon("wide queries (start <= 2^17, span 100-500 Mb): %s %s" % (kind, wo))
+        if q["within"]:
+            ctx.mon("wide within queries %s a bin clause in the SQL" % ("with" if present else "without"))
+            by_id = SET["by_id"]
+            if any(by_id[i]["end"] <= G.SMALL for i in lower):
+                ctx.mon("wide within queries returning features that lie inside the first 128 kb")
+    elif tag and tag.startswith("binend:"):
+        k = int(tag[7:])
+        by_id = SET["by_id"]
+        if any(by_id[i]["end"] == q["end"] for i in lower):
+            ctx.mon("bin-end queries (end = m*2^%d): %s %s, a feature ending on that base returned" % (17 + 3 * k, kind, wo))
+        else:
+            ctx.mon("bin-end queries: no stored feature ends on the query end")
+
+
+# ---------------------------------------------------------------------------------------------------------
+def judged(ctx, case, what, q, feats, got, alone):
+    """One generator of an interleave case: against the same call consumed alone and against the scan."""
+    uni = M.universe(feats, q["api"], q["id"])
+    lower, upper = M.expected(uni, q["seqid"], q["start"], q["end"], q["within"], q["strand"], q["ft"])
+    ctx.mon("interleaved: generators consumed while another generator of the same FeatureDB was alive")
+    ctx.mon("interleaved: generators of %s" % q["api"])
+    ctx.mon("result rows compared", len(got))
+    why = None
+    if sorted(got) != sorted(alone):
+        why = "yields something else than the same call consumed alone with list()"
+    else:
+        bad = M.judge(got, lower, upper)
+        if bad:
+            why = "differs from the full scan (%s)" % ", ".join("%s: %s" % (k, v[:6]) for k, v in bad.items() if v)
+    if why:
+        report(ctx, case, "interleaved", {"why": "interleaved generators (%s): %s %s" % (what, q["api"], why),
+                                          "query": describe(q), "got": got[:30], "alone": alone[:30], "n_got": len(got),
+                                          "n_alone": len(alone), "n_expected": len(lower), "set": case["set"]})
+        return None
+    return len(lower)
+
+
+def inner_query(inner, f):
+    """The inner query of a nested loop for the yielded feature f (its seqid/start/end; '@outer' = its id)."""
+    qi = dict(inner, seqid=f.seqid, start=int(f.start), end=int(f.end))
+    if qi.get("id") == "@outer":
+        qi["id"] = f.id
+    return qi
+
+
+def execute_interleave(ctx, case):
+    """kind "interleave": {"set", "mode": "schedule"|"nested", "queries": [q...], "sched": seed, "zipped": bool,
+    "inner": query template}.  Returns True when the interleaving could have made a difference."""
+    db, SET, _ = get_db(ctx, case["set"])
+    feats = SET["features"]
+    qs = case["queries"]
+    ctx.mon("queries executed", len(qs))
+    try:
+        if case["mode"] == "schedule":
+            alones = [call(db, q) for q in qs]
+            gens = [open_query(db, q) for q in qs]
+            got = [[] for _ in qs]
+            live = list(range(len(qs)))
+            r = random.Random(case["sched"])
+            turn = 0
+            while live:
+                i = live[turn % len(live)] if case["zipped"] else r.choice(live)
+                turn += 1
+                try:
+                    got[i].append(next(gens[i]).id)
+                except StopIteration:
+                    live.remove(i)
+            ok = True
+            for q, g, a in zip(qs, got, alones):
+                if judged(ctx, case, "zip/round robin" if case["zipped"] else "random schedule", q, feats, g, a) is None:
+                    ok = False
+            sizes = sorted(len(a) for a in alones if a)
+            useful = ok and len(sizes) >= 2 and sizes[-1] >= 2
+            if useful:
+                ctx.mon("interleaved: schedules over >= 2 non-empty generators (one with >= 2 items)")
+        else:
+            q, inner = qs[0], case["inner"]
+            alone = call(db, q)
+            # the features come back as objects: the inner queries are built from what the outer generator yields
+            alone_inner = {}
+            for f in open_query(db, q):
+                alone_inner[f.id] = call(db, inner_query(inner, f))
+            outer, inner_got, inner_qs = [], {}, {}
+            for f in open_query(db, q):
+                outer.append(f.id)
+                qi = inner_query(inner, f)
+                inner_qs[f.id] = qi
+                g = []
+                for x in open_query(db, qi, feature=f if qi["form"] == "feature" else None):
+                    g.append(x.id)
+                inner_got.setdefault(f.id, []).extend(g)
+            ok = judged(ctx, case, "outer loop of a nested loop", q, feats, outer, alone) is not None
+            nonempty = 0
+            for fid, g in inner_got.items():
+                n = judged(ctx, case, "inner loop of a nested loop", inner_qs[fid], feats, g, alone_inner.get(fid, []))
+                if n is None:
+                    ok = False
+                    break
+                nonempty += 1 if n else 0
+            useful = ok and len(alone) >= 2 and nonempty > 0
+            if useful:
+                ctx.mon("interleaved: nested loops with >= 2 outer items and a non-empty inner result")
+                ctx.mon("interleaved: nested loops with %s inside a loop over %s" % (
+                    "region(feature)" if inner["api"] == "region" and inner["form"] == "feature" else
+                    "%s(%s...)" % (inner["api"], "region=" if inner["api"] == "region" else "limit="),
+                    "region(...)" if q["api"] == "region" else "%s(limit=...)" % q["api"]))
+    except Exception as ex:
+        report(ctx, case, "raised", {"why": "interleaved generators raised %s" % (repr(ex)[:300],), "set": case["set"]})
+        useful = False
+    for v in contracts.drain():
+        report(ctx, case, "contract " + v.get("contract", "?"), v)
+    return useful
 
 
 def describe(q):
@@ -277,19 +449,73 @@ def diagnose(q, uni, got, stored_bin):
         api, "completely_within" if q["within"] else "overlap", q["form"])
 
 
+FLAVOURS = [None, "case", None, "binends"]
+
+
+def gen_interleave(rng, SET, setp):
+    """An interleave case against SET (JSON-able; the schedule is a seed)."""
+    feats = SET["features"]
+    if rng.random() < 0.5:
+        qs = [G.gen_query(rng, SET) for _ in range(rng.choice([2, 2, 3, 4]))]
+        if SET.get("binends") and rng.random() < 0.5:
+            qs[0] = G.gen_query(rng, SET, mode="binend")
+        return {"kind": "interleave", "set": setp, "mode": "schedule", "queries": qs, "sched": rng.randrange(10 ** 9),
+                "zipped": rng.random() < 0.5}
+    # nested: an outer query with 2..40 expected features (so that the inner loop runs more than once, cheaply)
+    q = None
+    for _ in range(40):
+        q = G.gen_query(rng, SET)
+        if q["api"] != "region" and rng.random() < 0.6:
+            q.update(api="region", form=rng.choice(["tuple", "string", "kw"]), id=None, level=None)
+        uni = M.universe(feats, q["api"], q["id"])
+        lower, _ = M.expected(uni, q["seqid"], q["start"], q["end"], q["within"], q["strand"], q["ft"])
+        if 2 <= len(lower) <= 40:
+            break
+    inner = G.gen_query(rng, SET)
+    if rng.random() < 0.5:
+        inner.update(api="region", form="feature", id=None, level=None, fstrand=None)
+    elif inner["api"] == "region":
+        inner["form"] = rng.choice(["feature", "tuple", "string", "kw"])
+    elif inner["api"] == "children" and rng.random() < 0.5:
+        inner["id"] = "@outer"
+    if inner["form"] == "feature":
+        inner["fstrand"] = None          # the yielded Feature object itself is passed
+    if inner["api"] == "region" and inner["form"] not in ("feature", "tuple", "string", "kw"):
+        inner["form"] = "kw"
+    if inner["api"] != "features_of_type" and rng.random() < 0.6:
+        inner["ft"], inner["ft_form"] = None, None       # more non-empty inner results
+    inner.update(seqid=None, start=None, end=None)
+    return {"kind": "interleave", "set": setp, "mode": "nested", "queries": [q], "inner": inner}
+
+
 def run(ctx):
     rng = ctx.rng
     quick = ctx.tier == "quick"
     nsets = 4 if quick else 20
-    nq = ctx.budget(40000, 16 * 20 * 4000) // nsets
+    nq = ctx.budget(29000, 16 * 20 * 3600) // nsets
     n = 250 if quick else 300
+    first = rng.randrange(4)
     for si in range(nsets):
         setp = {"seed": rng.randrange(1 << 30), "n": n}
-        if rng.random() < 0.25:
+        flavour = FLAVOURS[(si + first) % 4]
+        if flavour:
+            setp["flavour"] = flavour
+        elif rng.random() < 0.35:
             setp["moved"] = True
         _, SET, _ = get_db(ctx, setp)
-        for _ in range(nq):
-            q = G.gen_query(rng, SET)
+        for qi in range(nq):
+            if qi % 25 == 24:
+                case = gen_interleave(rng, SET, setp)
+                useful = execute(ctx, case)
+                ctx.case((setp["seed"], repr(sorted((k, repr(v)) for k, v in case.items() if k != "set"))), useful,
+                         cls="interleave/" + case["mode"],
+                         sample={"set": setp, "mode": case["mode"], "queries": [describe(x) for x in case["queries"]],
+                                 "inner": describe(case.get("inner") or {})})
+                continue
+            mode = None
+            if flavour == "binends":
+                mode = rng.choice(["wide", "wide", "binend", "binend", None])
+            q = G.gen_query(rng, SET, mode)
             case = {"kind": "query", "set": setp, "query": q}
             r = execute(ctx, case)
             s, e = q["start"], q["end"]
